@@ -186,24 +186,6 @@ theorem C06_between_partial (ops : List Op) (a b : Nat) (ty : Option Nat) (e : N
       simp only [Option.some.injEq] at this
       simp [this]
 
-theorem colGet_none {c : List ((Nat × Nat) × Nat)} {r k : Nat} (h : ∀ p ∈ c, p.1.1 ≠ r) :
-    colGet c r k = none := by
-  unfold colGet
-  rw [List.find?_eq_none.mpr]
-  · rfl
-  · intro p hp hb
-    simp only [beq_iff_eq] at hb
-    exact h p hp (by rw [hb])
-
-theorem assocGet_none {β : Type} {m : List (Nat × β)} {k : Nat} (h : ∀ p ∈ m, p.1 ≠ k) :
-    assocGet m k = none := by
-  unfold assocGet
-  rw [List.find?_eq_none.mpr]
-  · rfl
-  · intro p hp hb
-    simp only [beq_iff_eq] at hb
-    exact h p hp hb
-
 /-- An id that is not in use holds nothing: a dead node id has empty rows in **both** tiers
 (frozen segments included) and an empty column row; a dead relationship id is in no row of
 either tier, is untyped, and has no sparse properties and no column row.  Hence whatever is
@@ -250,22 +232,6 @@ theorem C06_fresh_ids_are_dead (ops : List Op) :
   have h := inv_run ops
   exact ⟨(allocN_spec h).1, (allocE_spec h.toInvE).1, h.node0, h.freeN_dead, h.freeE_dead,
     h.freeN_nodup, h.freeE_nodup⟩
-
-theorem createNode_reads (s : State) (l : Nat) (ps : Props) :
-    (∀ n, getNode (createNode s l ps).1 n
-        = if n = (allocN s).1 then some { labels := [l], props := ps } else getNode s n)
-    ∧ (createNode s l ps).2 = .id (allocN s).1
-    ∧ (∀ e, endpOf (createNode s l ps).1 e = endpOf s e) := by
-  unfold createNode allocN
-  cases s.freeN with
-  | nil =>
-    refine ⟨fun n => ?_, rfl, fun e => rfl⟩
-    show (setGrow s.nodes s.nextN _ none).getD n none = _
-    rw [getD_setGrow]; rfl
-  | cons i rest =>
-    refine ⟨fun n => ?_, rfl, fun e => rfl⟩
-    show (setGrow s.nodes i _ none).getD n none = _
-    rw [getD_setGrow]; rfl
 
 /-- A node created after any history — possibly under a reused id — was not in use before,
 has exactly the label it was given and no properties, no neighbour in either direction and
